@@ -36,7 +36,7 @@ def main():
                 last = other[-1]
         title = re.sub(r"\s+", " ", meta.get("needs_to_manifest", "")).split(" ## ")[0][:150].replace("|", "/")
         sigs = ", ".join(last["signatures"][:2]) if last and last["caught"] else ""
-        rnd = {"m1": 1, "m2": 1, "m3": 2, "m4": 2, "m5": 3, "m6": 3}.get(n.split("-")[1], 0)
+        rnd = {"m1": 1, "m2": 1, "m3": 2, "m4": 2, "m5": 3, "m6": 3, "m7": 4, "m8": 4}.get(n.split("-")[1], 0)
         st = rounds.setdefault(rnd, [0, 0, 0])
         st[0] += 1
         st[1] += 1 if first else 0
